@@ -31,7 +31,8 @@ RULE = ("20 workload programs (H elements incl. linked blocks, DD-block overflow
         "counts the stdio calls (fopen/fread/fwrite/fseek/ftell/fflush/fclose) and then EVERY index k is made to fail, "
         "once as a single fault and once sticky (k and all later calls), transfers of failing fread/fwrite = nothing "
         "(errno EIO); a PRNG-chosen (VERIF_SEED) third of the indices (thorough: all) is repeated with strict-prefix "
-        "transfers (errno ENOSPC). Each run is a child process under ASan/UBSan with a 20 s watchdog; recorded: every "
+        "transfers (errno ENOSPC), and half of them (thorough: all, gaps 1,2,3,5,8,13,21) with a second independent single "
+        "fault at index k+gap. Each run is a child process under ASan/UBSan with a 20 s watchdog; recorded: every "
         "API return value, exit status, final file bytes and a hash of all data read, compared with the fault-free "
         "run. Function level: 9 prepared file records x up to 8 L1 functions x every fault index x single/sticky. "
         "A case is non-trivial when the injected fault actually hit (nfaults > 0); distinct by (workload, mode, k, "
@@ -158,6 +159,10 @@ def run(ctx):
             jobs.append("%s t %d 0" % (w, k))
             if ctx.tier == "thorough" or r.random() < 0.34:
                 jobs.append("%s %s %d 1" % (w, r.choice("st"), k))
+            # two independent single faults: the second one hits clean-up / retry code after the first
+            for gap in ((1, 2, 3, 5, 8, 13, 21) if ctx.tier == "thorough" else (r.choice((1, 2, 3, 5, 8, 13, 21)),)):
+                if ctx.tier == "thorough" or r.random() < 0.5:
+                    jobs.append("%s s %d 0 %d" % (w, k, k + gap))
     out = run_jobs(ctx, exe, jobs, "main")
     ver = judge_lines(ctx, mod, out, "main")
     stats["jobs"] = len(jobs)
